@@ -211,7 +211,10 @@ def kin_case(ctx_or_vals, case):
     fake_conv = lambda rsl, xx, pj: (0.0, 0.0)
     from yadism.coefficient_functions import partonic_channel as pcm
 
-    with npshim.patched((conv, "convolution", fake_conv), (pcm, "np", npshim.NPShim())):
+    from yadism.esf import esf as esfmod0
+
+    # numpy calls on the kinematics inside esf.py / tmc.py (np.isclose, np.sqrt, ...) keep their documented meaning on symbolic values
+    with npshim.patched((conv, "convolution", fake_conv), (pcm, "np", npshim.NPShim()), (esfmod0, "np", npshim.NPShim()), (tmcmod, "np", npshim.NPShim())):
         try:
             obj = sf.get_esf(sf.obs_name, {"x": x, "Q2": Q2}, use_raw=False)
             if isinstance(obj, tmcmod.EvaluatedStructureFunctionTMC):
